@@ -17,6 +17,36 @@ from lib import prog as P
 from rules import latch
 
 
+SIZED_SOURCES = ("String", "std::basic_string", "basic_string_view", "std::string")
+
+
+def r_readerkind(ctx, prog, rule="R-READER"):
+    """An input that knows its length is read through a bounded reader: the
+    Reader<> specialisation for String, std::string and string_view derives
+    from BoundedReader / IteratorReader (pointer + end), never from the
+    zero-terminated pointer reader — a length-delimited MessagePack document
+    may contain NUL bytes and may stop before any NUL."""
+    n = 0
+    for r in sorted(prog.records, key=lambda r: r.get("full", "")):
+        full = r.get("full", "")
+        if r.get("dependent") or not full.startswith("ArduinoJson::detail::Reader<"):
+            continue
+        arg = full[len("ArduinoJson::detail::Reader<"):]
+        if not any(arg.replace("const ", "").startswith(x) or arg.replace("const ", "").startswith(x.replace("std::", "")) for x in SIZED_SOURCES):
+            continue
+        n += 1
+        bases = [b if isinstance(b, str) else b.get("q", "") for b in r.get("bases", [])]
+        fields = [f["n"] for f in r.get("fields", [])]
+        bounded = any(b.split("<")[0].split("::")[-1] in ("BoundedReader", "IteratorReader") for b in bases) or \
+            ("end_" in fields and "ptr_" in fields)
+        ctx.ob(rule, "%s reads within the length of its source" % full.replace("ArduinoJson::detail::", ""), bounded,
+               "%s:%s" % (P.relfile(r["file"]), r.get("line", 0)),
+               "derives from %s" % bases if bounded else
+               "the reader of a sized string derives from %s: it stops at the first NUL instead of at length(): a truncated or hostile "
+               "MessagePack document in such a string is read past its end" % (bases or "nothing (own unbounded pointer)"), nontrivial=False)
+    ctx.count(rule + ":sized_source_readers", n)
+
+
 def r_reader(ctx, prog, rule="R-READER"):
     n = 0
     for fn in sorted(prog.fns.values(), key=lambda f: f.key):
@@ -113,5 +143,6 @@ def run(ctx, prog):
                         ok = ok or "loaded_" in fn.text(cond)
         ctx.ob("R-CONSUME", "Latch::current loads only when nothing is loaded", ok, fn.where, "")
     r_reader(ctx, prog)
+    r_readerkind(ctx, prog)
     ctx.doc("R-NOSTATE", "the MessagePack deserializer has no field that could cache input bytes")
     ctx.doc("R-READER", "Reader::read() returns data bytes as unsigned 8-bit values")
